@@ -134,8 +134,8 @@ claim("C11",
       "reports only an exit command the reducer really emitted.",
       "Not a full functional-equality proof: that the loop feeds EVERY tick exactly once and in order is checked by the "
       "loop contract's structure (for-over-list cut at the invariant) but 'result == fold(reduce, ticks)' is not stated "
-      "as a ghost fold yet; that the live loop records every tick it reduces (runner main loop / adapter on_tick) is "
-      "trusted; timestamps are set aside as in the statement.",
+      "as a ghost fold yet; that the persistence adapter journals every tick it is shown is under contract "
+      "(PersistTick) but that the runner main loop shows every tick to adapter.on_tick is trusted; timestamps are set aside as in the statement.",
       category="other")
 
 claim("C20",
@@ -181,11 +181,14 @@ claim("C12",
 claim("C13",
       "replay_ticks_stream (what a restarted server uses to rebuild a run) is proved to start like the live runner, to "
       "keep the reducer invariant over every persisted tick and to report as the run's outcome only an exit command the "
-      "reducer really emitted for one of those ticks (so a run whose ticks already end it is finalized, not re-run).",
-      "The statement's 'no accepted event is lost' half is NOT decided here: commands of replayed ticks other than the "
-      "exit command are discarded by design and whether their effects were persisted as later ticks is a property of the "
-      "server runtime (persistence_runtime, _on_server_start) that is not under contract; handler status mapping is "
-      "not under contract either.",
+      "reducer really emitted for one of those ticks (so a run whose ticks already end it is finalized, not re-run). "
+      "The journal side is under contract too: _PersistenceInternalRunAdapter.on_tick is proved (ghost call log) to "
+      "forward EVERY tick, whatever its kind, to the inner adapter and to offer its serialised form to "
+      "store.append_tick exactly once under the run's id.",
+      "The statement's 'no accepted event is lost' half is decided only up to the journal: commands of replayed ticks "
+      "other than the exit command are discarded by design and whether their effects were persisted as later ticks is "
+      "a property of the rest of the server runtime (_on_server_start, the store's append_tick implementations) that "
+      "is not under contract; handler status mapping is not under contract either.",
       category="other")
 
 claim("C14",
